@@ -235,7 +235,8 @@ def real_mount_crosscheck(prop, pid, tier, seed, results, n, kind='real'):
     if not n or not info['available']:
         return info
     picks = [r for r in results if r.get('nontrivial') and
-             r.get('verdict') in ('ok', 'violation')]
+             r.get('verdict') in ('ok', 'violation') and
+             r.get('replayable', True)]
     step = max(1, len(picks) // n)
     picks = picks[::step][:n]
     items = []
